@@ -25,11 +25,6 @@ impl<'a> Visitor<'a> for FieldsOnCorrectType {
                 .fields()
                 .and_then(|fields| fields.get(field.node.name.node.as_str()))
                 .is_none()
-                && !field
-                    .node
-                    .directives
-                    .iter()
-                    .any(|directive| directive.node.name.node == "ifdef")
             {
                 ctx.report_error(
                     vec![field.pos],
